@@ -3,6 +3,8 @@ from __future__ import annotations
 
 import math
 
+import numpy as np
+
 from ..runner import Case
 from .. import sym, symparse as sp
 from . import common as cm
@@ -130,6 +132,14 @@ def _single_atom_default(E):
     for text, single in (('FeFe', pt.Fe), ('Fe + Fe', pt.Fe), ('Fe2(Fe)3', pt.Fe), ('D D2', pt.D), ('3H2O', None), ('(HDO)2', None), ('(FeNi)2', None)):
         d = formulas.formula(text).density
         E.fact('default_density[%s]' % text, (d is None) if single is None else (d == single.density), note=repr(d))
+    # an atom whose element has no tabulated density: the default is "unknown", for the element, its isotopes and its ions
+    for atom in (pt.Ra, pt.Ra.ion[2], pt.Rn[222], pt.At, pt.Fr.ion[1], pt.Rn[222].ion[1] if 1 in pt.Rn.ions else pt.Ra[226].ion[2]):
+        try:
+            d = formulas.formula(atom).density
+            d2 = formulas.formula(str(formulas.formula(atom))).density
+            E.fact('unknown_default_density[%s]' % atom, d is None and d2 is None, note=repr((d, d2)))
+        except Exception as e:   # noqa: BLE001
+            E.fact('unknown_default_density[%s]' % atom, False, note='%s: %s' % (type(e).__name__, e))
     # isotope density = element density scaled by the mass ratio
     iso = atoms[1]
     E.eq('isotope_density', iso.density * el.mass, el.density * iso.mass)
@@ -211,6 +221,24 @@ def _volume_case(keys, pf_kind):
             E.eq('volume_packing_float', v * pf, spheres * 1e-24)
             v2 = f.volume(pf)
             E.eq('volume_positional_packing', v2, v)
+            if not E.symbolic:
+                # any real number type is a packing factor (numpy scalars, 0-d arrays, fractions), by keyword or position
+                from fractions import Fraction
+                ref = float(f.volume(packing_factor=0.5))
+                for val in (np.float64(0.5), np.float32(0.5), Fraction(1, 2), np.array(0.5)):
+                    for how in ('keyword', 'position'):
+                        try:
+                            got = float(f.volume(packing_factor=val) if how == 'keyword' else f.volume(val))
+                            E.fact('packing_factor_type[%s|%s]' % (type(val).__name__, how), abs(got - ref) <= 1e-6 * ref, note=repr((got, ref)))
+                        except Exception as e:   # noqa: BLE001
+                            E.fact('packing_factor_type[%s|%s]' % (type(val).__name__, how), False, note='%s: %s' % (type(e).__name__, e))
+                ref1 = float(f.volume(packing_factor=1.0))
+                for val in (1, np.int64(1), np.int32(1)):
+                    try:
+                        got = float(f.volume(packing_factor=val))
+                        E.fact('packing_factor_type[%s]' % type(val).__name__, abs(got - ref1) <= 1e-9 * ref1, note=repr((got, ref1)))
+                    except Exception as e:   # noqa: BLE001
+                        E.fact('packing_factor_type[%s]' % type(val).__name__, False, note='%s: %s' % (type(e).__name__, e))
         elif pf_kind == 'default':
             v = f.volume()
             E.eq('volume_default_hcp', v * LATTICES['hcp'], spheres * 1e-24)
